@@ -2,7 +2,8 @@
 import random, math
 
 RULES = {
-    'C12.B.trees': 'random expression trees of depth 1..6 over + - unary- abs *k k* /k %k (DMS, DDM) with leaves from all five classes (values in [-360,360] incl. 0, (-1,0) deg, minute/degree boundaries; intermediate magnitudes < 720): value equals the float evaluation within 1e-8 arc-seconds, result has the class of its left operand; comparisons == != < > agree with the floats',
+    'C12.B.trees': 'random expression trees of depth 1..6 over + - unary- abs *k k* /k %k (DMS, DDM; k a Python int or float, either sign; as right operand also a numpy int64 / float64 scalar) with leaves from all five classes (values in [-360,360] incl. 0, (-1,0) deg, minute/degree boundaries; intermediate magnitudes < 720): value equals the float evaluation within 1e-8 arc-seconds, result has the class of its left operand; comparisons == != < > agree with the floats',
+    'C12.B.compare': 'ordered pairs of angle objects of all 25 class pairs, values drawn so that exactly equal angles occur (whole degrees, half and quarter degrees, the same value in both classes) next to unequal ones: a == b, a != b, a < b, a > b each equal the same comparison of a.dec() and b.dec()',
     'C12.B.round': 'round(a, n) for DEC/GON/DMS/DDM objects, n in 0..6: changes the object by at most half a unit of the rounded place',
 }
 TOL = 1e-8 / 3600 + 4e-13
@@ -60,7 +61,14 @@ def work(item):
         elif op == 'abs':
             v, f, d = abs(va), (lambda: abs(fa())), 'abs(%s)' % da
         elif op in ('mul', 'rmul', 'div'):
-            k = rng.choice([2, 3, 0.5, 1.5, 7])
+            k = rng.choice([2, 3, 0.5, 1.5, 7, -2, -1.5])
+            kk = rng.randint(0, 3)
+            if kk == 1 and op != 'rmul':          # numpy scalars as RIGHT operands only: numpy answers `np.float64 * DECAngle` itself (DECAngle is a float)
+                import numpy as np
+                k = np.float64(k)
+            elif kk == 2 and op != 'rmul' and float(k).is_integer():
+                import numpy as np
+                k = np.int64(int(k))
             if op == 'div':
                 v, f, d = va / k, (lambda: fa() / k), '(%s / %r)' % (da, k)
             elif op == 'mul':
@@ -98,6 +106,25 @@ def work(item):
         except Exception as ex:
             r['failures'].append(dict(input=dict(expr=d), what='exception: %s: %s' % (type(ex).__name__, str(ex)[:80])))
     r['samples'] = [dict(expr='(DMSAngle(12.5) + HPAngle(-0.25))')]
+    r3 = dict(check='C12.B.compare', function='angles comparison operators', n=0, keys=set(), failures=[], samples=[dict(left='HPAngle(-180.0)', right='DECAngle(-180.0)')])
+    exact = [0.0, 1.0, -1.0, 180.0, -180.0, 359.0, 12.5, -12.5, 45.25, -0.5, -0.25, 90.75, 270.0]
+    for it in range(item['n']):
+        ca, cb = CLS[it % 5], CLS[(it // 5) % 5]
+        va = rng.choice(exact) if rng.random() < 0.6 else leafval()
+        m_ = rng.random()
+        vb = va if m_ < 0.5 else (rng.choice(exact) if m_ < 0.75 else leafval())
+        try:
+            a, b = obj(ca, va), obj(cb, vb)
+            da, db = a.dec(), b.dec()
+            r3['n'] += 1
+            r3['keys'].add((ca.__name__, cb.__name__, va, vb))
+            got = ((a == b), (a != b), (a < b), (a > b))
+            want = ((da == db), (da != db), (da < db), (da > db))
+            if tuple(bool(x) for x in got) != want:
+                r3['failures'].append(dict(input=dict(left='%s(%r)' % (ca.__name__, va), right='%s(%r)' % (cb.__name__, vb)), what='(==, !=, <, >) disagree with the comparison of the decimal values',
+                                           got=[bool(x) for x in got], expected=list(want), left_dec=da, right_dec=db))
+        except Exception as ex:
+            r3['failures'].append(dict(input=dict(left='%s(%r)' % (ca.__name__, va), right='%s(%r)' % (cb.__name__, vb)), what='exception: %s: %s' % (type(ex).__name__, str(ex)[:80])))
     r2 = dict(check='C12.B.round', function='angles __round__', n=0, keys=set(), failures=[], samples=[dict(cls='DMSAngle', n=2)])
     for it in range(item['n'] // 2):
         v = leafval()
@@ -112,8 +139,32 @@ def work(item):
                     r2['failures'].append(dict(input=dict(value=v, n=n, cls=cls.__name__), what='rounding changed the angle by more than half a unit of the rounded place', before=o.dec(), after=q.dec()))
             except Exception as ex:
                 r2['failures'].append(dict(input=dict(value=v, n=n, cls=cls.__name__), what='exception: %s: %s' % (type(ex).__name__, ex)))
-    return [r, r2]
+    return [r, r2, r3]
 
 
 def replay_case(check, inp):
-    return dict(note='expression trees are regenerated from the seed: re-run ./check C12', input=inp)
+    """re-evaluate the recorded expression / pair on the current tree"""
+    import geodepy.angles as A
+    import numpy as np
+
+    def mk(cls):
+        def f(v):
+            o = A.DECAngle(v)
+            return {A.DECAngle: lambda: o, A.HPAngle: o.hpa, A.GONAngle: o.gona, A.DMSAngle: o.dms, A.DDMAngle: o.ddm}[cls]()
+        return f
+    objs = {c.__name__: mk(c) for c in (A.DECAngle, A.HPAngle, A.GONAngle, A.DMSAngle, A.DDMAngle)}
+    objs['np'] = np
+    flo = {k: (lambda v: v) for k in objs if k != 'np'}
+    flo['np'] = np
+    if 'expr' in inp:
+        o = eval(inp['expr'], dict(objs, abs=abs))
+        v = float(eval(inp['expr'], dict(flo, abs=abs)))
+        if abs(o.dec() - v) > TOL + 1e-12 * abs(v):
+            return dict(input=inp, observed=o.dec(), expected=v)
+        return None
+    if 'left' in inp and 'right' in inp and check == 'C12.B.compare':
+        a, b = eval(inp['left'], dict(objs)), eval(inp['right'], dict(objs))
+        got = [bool(a == b), bool(a != b), bool(a < b), bool(a > b)]
+        want = [a.dec() == b.dec(), a.dec() != b.dec(), a.dec() < b.dec(), a.dec() > b.dec()]
+        return None if got == want else dict(input=inp, observed=got, expected=want)
+    return dict(note='this record cannot be re-evaluated on its own: re-run ./check C12', input=inp)
